@@ -1,6 +1,6 @@
 """Contracts on bitcoinlib/scripts.py: push encoding, script numbers, stack operations."""
 import z3
-from pyvc.api import contract, Int, Bytes, Bool, ListOf, implies, T, RecordOf, Const
+from pyvc.api import contract, Int, Bytes, Bool, ListOf, implies, T, RecordOf, Const, OneOfElem, loop, fold
 from spec import script as sp
 
 
@@ -287,3 +287,33 @@ def _kind_vectors(n):
 
 
 SERIALIZE_CASES = [_serialize_case(kv)._contract.key for kv in _kind_vectors(3)]
+
+
+# Script.serialize for a command list of ANY length: loop invariant over a left fold; an element is an opcode (0..255) or a data item of up
+# to 65535 bytes (longer items make data_pack raise OverflowError: covered by the data_pack contract and the per-count cases)
+from bitcoinlib.scripts import Script as _Script
+
+_CmdElem = OneOfElem([Int(0, 255), Bytes(max=0xffff)])
+
+
+@loop('bitcoinlib.scripts.Script.serialize', 0,
+      defines={'raw': lambda self, k: fold(sp.serialize_step, b'', self.commands, k, key='script-ser')})
+def serialize_inv(self, k):
+    """after k commands raw is the serialisation of the first k commands"""
+    return 0 <= k and k <= len(self.commands)
+
+
+@contract('bitcoinlib.scripts.Script.serialize', case='any-count', props=('C18',))
+class serialize_any_count:
+    """Script.serialize of ANY number of commands (each an opcode value 0..255 or a data item of 0..65535 bytes) is the concatenation of the
+    opcode bytes and the canonical (shortest) pushes, and is what the object caches as its raw form."""
+    params = {'self': RecordOf(_Script, commands=ListOf(_CmdElem), _raw=Const(b''))}
+
+    def result_is(self):
+        return sp.serialize_commands_any(self.commands)
+
+    def ensures(self, result):
+        return self._raw == result
+
+    def prepare(self):
+        return {'self': _Script(commands=list(self.fields['commands']))}
